@@ -594,8 +594,12 @@ def run_check(prop_id, tier="quick", seed=0, replay=None):
 
     xsample, xcount = [], {}
     xper, xmax = (3, 120) if tier == "thorough" else (1, 40)
+    cheap = []          # (case, impl result) of fast cases, for the history-independence re-run below
     for c in cases:
+        _t0 = time.time()
         ir, mr = eval_case(c)
+        if time.time() - _t0 < 0.03 and ir[0] != "err" or (ir[0] == "err" and ir[1] not in ("Timeout", "Crash") and time.time() - _t0 < 0.03):
+            cheap.append((c, ir))
         stats["evaluations"] += 1
         stats["classes"][c["cls"]] = stats["classes"].get(c["cls"], 0) + 1
         if ir[0] == "err":
@@ -617,6 +621,26 @@ def run_check(prop_id, tier="quick", seed=0, replay=None):
             stats["agree"] += 1
         else:
             disagreements.append((c, ir, mr))
+
+    # ---- history independence: re-run a sample of cases in another order; a pure function of its input must answer
+    #      the same whatever was called before (catches state carried between calls: caches, mutable defaults) ----
+    if cheap and not getattr(prop, "HISTORY_DEPENDENT_OK", False):
+        rs = random.Random("rerun-%s-%s" % (prop_id, seed))
+        sample = rs.sample(cheap, min(len(cheap), 400 if tier == "thorough" else 150))
+        rs.shuffle(sample)
+        nre = 0
+        for (c, ir0) in sample + sample[:25]:
+            ir1 = impl.call(c["op"], c["args"], timeout=c.get("timeout"))
+            if canon and ir1[0] == "ok":
+                ir1 = ("ok", canon(c, ir1[1]))
+            nre += 1
+            same = (ir0[0] == ir1[0]) and (norm(ir0[1]) == norm(ir1[1]) if ir0[0] == "ok" else ir0[1] == ir1[1])
+            if not same:
+                disagreements.append((c, ir1, ("ok", ir0[1]) if ir0[0] == "ok" else ("err", ir0[1])))
+                stats.setdefault("extra", {})["history_dependent_results"] = stats.get("extra", {}).get("history_dependent_results", 0) + 1
+                if stats["extra"]["history_dependent_results"] >= 5:
+                    break
+        stats.setdefault("extra", {})["history_independence_reruns"] = nre
 
     # ---- search: turn disagreements into failing inputs of the property ----
     shrink = getattr(prop, "shrink", None)
